@@ -123,6 +123,7 @@ func runC02(c *Ctx) {
 		_ = s
 		c.Check(bad == "", "C02.R1", shortFn(probe)+": the whole bucket is scanned", probe.Pos(), "complete range, no early exit", bad)
 	}
+	importRules(c, runC13, map[string]string{"C13.R2": "C02.R7"}, nil)
 	importRules(c, runC11, map[string]string{"C11.R5": "C02.R7"}, map[string]string{"C02.R7": "the constructor sees every rule of every list: storage scanner visits all lists, indexes are retrievable (shared with C11.R5)"})
 
 	// ---------- R2 ----------
